@@ -1,9 +1,46 @@
-"""C02, second half: argument objects of over_time / save_data / read_data are left untouched (filled in with the store / over_time harnesses)."""
+"""C02, second half: argument objects of over_time / save_data / read_data are left untouched."""
+import json
+import random
 
 
 def check_arguments(run, tier, seed):
-    run.info["argument_checks"] = "see harness/props/c02_args.py"
+    from .. import overtime_engine as O
+    from .. import store_engine as S
+    from . import c14
+    # --- over_time: per-step arrays (byte digests) and the vars / estimates lists
+    r = O.run_spec(2)
+    run.add_tlc(r, "OverTime: behaviours used for the argument checks")
+    beh = c14.behaviours(r.printed)
+    rng = random.Random(seed)
+    rng.shuffle(beh)
+    jobs = [(b, {}) for b in beh[: (150 if tier == "quick" else 1500)]] + c14.driver_jobs() + [c14.all_estimators_job()]
+    res = O.pmap(O.check_behaviour, jobs)
+    n = 0
+    for (b, kw), fnds in zip(jobs, res):
+        n += 1
+        for pid, sig, what, rep in fnds:
+            if pid == "C02":
+                run.violation(sig, what, rep)
+    run.info["over_time_argument_checks"] = n
+    # --- save_data / read_data
+    rs = S.run_spec(1)
+    run.add_tlc(rs, "AurelStore: single saves used for the argument checks")
+    jobs2, res2 = S.replay_all(rs.printed)
+    m = 0
+    for (hist, allowed, _), fnds in zip(jobs2, res2):
+        m += 1
+        for clause, sig, what, rep in fnds:
+            if clause == "ArgsUntouched":
+                run.violation(sig, what, rep)
+    run.info["save_read_argument_checks"] = m
+    run.traces += n + m
 
 
 def replay(r):
+    from .. import overtime_engine as O
+    if "state" in r:
+        f = [x for x in O.check_behaviour((r["state"], r.get("rel_kwargs", {}))) if x[0] == "C02"]
+        for x in f:
+            print(x[1], x[2])
+        return 1 if f else 0
     return 0
